@@ -167,3 +167,42 @@ func H_C03_fp() {
 	}
 	vrt.Reach("done")
 }
+
+// H_C03_big: element-wise binary operations and Scale on operands of thousands of elements (code paths
+// behind a size threshold: chunked or parallel kernels): every position, the trailing rows included,
+// holds the defined value.
+func H_C03_big() {
+	op := vrt.SParam("op")
+	dims := []int{vrt.Param("n0")}
+	if n1 := vrt.ParamOr("n1", 0); n1 > 0 {
+		dims = append(dims, n1)
+	}
+	a, ae := bigTensor("x", dims, false)
+	b, be := bigTensor("y", dims, false)
+	want := make([]float64, len(ae))
+	if op == "Scale" {
+		u := vrt.Float("u")
+		y := a.Scale(u)
+		for k := range want {
+			want[k] = u * ae[k]
+		}
+		checkTensor("Scale on a large operand", y, dims, want)
+		vrt.Reach("done")
+		return
+	}
+	if op == "Div" {
+		for k := range be {
+			vrt.Assume(be[k] >= 0.5)
+		}
+	}
+	y, err := applyBinary(op, a, b)
+	vrt.Assert("same shapes accepted", err == nil)
+	if err != nil {
+		return
+	}
+	for k := range want {
+		want[k] = refBinary(op, ae[k], be[k])
+	}
+	checkTensor(op+" on large operands", y, dims, want)
+	vrt.Reach("done")
+}
